@@ -43,19 +43,21 @@ type scenario struct {
 	name      string
 	kinds     string // one letter per caller: H heavy, N normal
 	queueSize int
+	maxDev    int // bound on deviation events (cancel, timer, finish err) taken while a plain event is enabled; -1: none
 	thorough  bool
 }
 
 var scenarios = []scenario{
-	{"HH-q1", "HH", 1, false},
-	{"HHN-q1", "HHN", 1, false},
-	{"HHH-q1", "HHH", 1, false},
-	{"HHH-q2", "HHH", 2, false},
-	{"NN-q1", "NN", 1, false},
-	{"HHNN-q1", "HHNN", 1, true},
-	{"HHHN-q2", "HHHN", 2, true},
-	{"HHHH-q1", "HHHH", 1, true},
-	{"HHHH-q2", "HHHH", 2, true},
+	{"HH-q1", "HH", 1, -1, false},
+	{"HHN-q1", "HHN", 1, -1, false},
+	{"HHH-q1", "HHH", 1, -1, false},
+	{"NN-q1", "NN", 1, -1, false},
+	{"HHHH-q1-dev2", "HHHH", 1, 2, false}, // 4 heavy callers are needed to fill a queue of 1 (running + held by the worker + queued)
+	{"HHH-q2", "HHH", 2, -1, true},
+	{"HHHH-q1", "HHHH", 1, -1, true},
+	{"HHHH-q2", "HHHH", 2, -1, true},
+	{"HHNN-q1-dev3", "HHNN", 1, 3, true}, // unbounded: 6.3e6 executions (measured once, same two keys only)
+	{"HHHN-q2-dev3", "HHHN", 2, 3, true},
 }
 
 type caller struct {
@@ -76,6 +78,7 @@ type caller struct {
 	returned  bool
 	ret       error
 	startSeq  int
+	finishSeq int
 	returnSeq int
 }
 
@@ -209,6 +212,8 @@ func (s *system) call(c *caller) {
 		c.running = false
 		c.finished = true
 		c.result = r
+		s.seq++
+		c.finishSeq = s.seq
 		s.mu.Unlock()
 		return r
 	})
@@ -261,8 +266,8 @@ func (s *system) Check(report events.Reporter) {
 			}
 		case c.startSeq > c.returnSeq:
 			report("ran-after-caller-was-answered", fmt.Sprintf("request %d started executing after its caller had already been answered with %s", c.idx, errStr(c.ret)))
-		case !c.finished:
-			// the caller was answered while its request is still executing: it cannot hold that run's result
+		case !c.finished || c.returnSeq < c.finishSeq:
+			// the caller was answered while its request was still executing: it cannot hold that run's result
 			key := "ran-but-caller-got-other-answer"
 			switch {
 			case c.ret == nil:
@@ -272,7 +277,7 @@ func (s *system) Check(report events.Reporter) {
 			case errors.Is(c.ret, context.Canceled):
 				key = "ran-but-caller-got-canceled"
 			}
-			report(key, fmt.Sprintf("request %d is being executed by the queue worker (started, not finished) but its caller was already answered with %s", c.idx, errStr(c.ret)))
+			report(key, fmt.Sprintf("request %d had been started by the queue worker and had not finished when its caller was answered with %s", c.idx, errStr(c.ret)))
 		case c.ret != c.result:
 			report("caller-result-differs-from-run-result", fmt.Sprintf("request %d ran and returned %s but its caller got %s", c.idx, errStr(c.result), errStr(c.ret)))
 		}
@@ -393,7 +398,7 @@ func init() {
 			Name:          sc.name,
 			Make:          func() events.System { return makeSystem(sc) },
 			Horizon:       40,
-			MaxDeviations: -1,
+			MaxDeviations: sc.maxDev,
 			ThoroughOnly:  sc.thorough,
 		})
 	}
@@ -401,27 +406,29 @@ func init() {
 }
 
 func run(r *ev.Run) {
-	cfg := events.RunConfig{Shards: 16, ShardDepth: 4, Deadline: 50 * time.Second}
+	cfg := events.RunConfig{Shards: 16, ShardDepth: 5, Deadline: 50 * time.Second}
 	if ev.Tier() == "thorough" {
 		cfg.Deadline = 13 * time.Minute
 	}
-	events.Run(r, "C41", cfg)
+	outcomes := events.Run(r, "C41", cfg)
 	var desc []string
 	for _, sc := range scenarios {
 		if sc.thorough && ev.Tier() != "thorough" {
 			continue
 		}
-		desc = append(desc, fmt.Sprintf("%s(callers %s, heavy queue %d)", sc.name, sc.kinds, sc.queueSize))
+		d := fmt.Sprintf("%s(callers %s, heavy queue %d", sc.name, sc.kinds, sc.queueSize)
+		if sc.maxDev >= 0 {
+			d += fmt.Sprintf(", at most %d early cancel/timer/error events", sc.maxDev)
+		}
+		desc = append(desc, d+")")
 	}
-	// vacuity guard: which branches of the limiter the explored executions reached
+	// vacuity guard: which answers of the limiter the explored executions reached
 	reached := map[string]bool{}
-	for _, name := range events.Names("C41", ev.Tier()) {
-		if m, ok := r.Coverage[name+".outcomes"].(map[string]int64); ok {
-			for o := range m {
-				for _, k := range interesting {
-					if strings.Contains(o, k) {
-						reached[k] = true
-					}
+	for _, m := range outcomes {
+		for o := range m {
+			for _, k := range interesting {
+				if strings.Contains(o, k) {
+					reached[k] = true
 				}
 			}
 		}
